@@ -447,9 +447,13 @@ func goEnv() []string {
 }
 
 func runCmd(dir string, timeout time.Duration, name string, args ...string) (string, error) {
+	return runCmdEnv(dir, timeout, nil, name, args...)
+}
+
+func runCmdEnv(dir string, timeout time.Duration, extraEnv []string, name string, args ...string) (string, error) {
 	cmd := exec.Command(name, args...)
 	cmd.Dir = dir
-	cmd.Env = goEnv()
+	cmd.Env = append(goEnv(), extraEnv...)
 	done := make(chan struct{})
 	var out []byte
 	var err error
